@@ -36,8 +36,7 @@ TRUSTED_EXTRA = ['scipy.fftpack.fft/ifft = DFT / inverse DFT (model computes its
                  'scipy.signal.firwin / iirdesign: opaque designs; only their arguments are modelled',
                  'np.convolve, np.ceil, np.mean by their numpy semantics',
                  'Generated/SeriesCalls.lean (harness/translate_c15.py) as the reading of the ts.TimeSeries(...) call sites',
-                 'Props/C18 states the projection theorems for the mathematical DFT over C (Nitime.C18.Props.dft/idft/proj); the executable '
-                 'Nitime.C18.filteredFourierWith mirrors it with Float pairs (same mask function keepBin, same index conventions) - this gap is trusted']
+                 'the Float reading (Num.C pairs, cos/sin twiddle table) of the scalar-polymorphic fourierProj whose R/C reading the theorems are about']
 
 UNITS = ['s', 'ms', 'us']
 METHODS = ['fir', 'iir', 'filtered_fourier', 'filtered_boxcar']
@@ -183,6 +182,39 @@ def observe_fir(cfg):
     return 'ok %d %s %s' % (ntaps, '-' if lp is None else f2x(lp), '-' if hp is None else f2x(hp))
 
 
+def observe_iir(cfg):
+    """run the real `iir` with scipy.signal.iirdesign wrapped from outside: the band edges it asks for"""
+    import scipy.signal as sp_signal
+    calls = []
+    orig = sp_signal.iirdesign
+
+    def spy(wp, ws, *a, **k):
+        calls.append((np.atleast_1d(np.asarray(wp, dtype='d')).tolist(), np.atleast_1d(np.asarray(ws, dtype='d')).tolist()))
+        return orig(wp, ws, *a, **k)
+    sp_signal.iirdesign = spy
+    try:
+        r = common.call(lambda: run_method(cfg))
+    finally:
+        sp_signal.iirdesign = orig
+    if isinstance(r, str):
+        return r
+    if len(calls) != 1:
+        return 'ok %d-designs -' % len(calls)
+    return 'ok %s %s' % (flist(calls[0][0]), flist(calls[0][1]))
+
+
+def cmp_lists(rtol):
+    def cmp(impl, model):
+        a, m = impl.split(), model.split()
+        if a[0] != 'ok' or m[0] != 'ok' or len(a) != len(m):
+            return impl == model
+        try:
+            return all(close_vec(parse_flist(x), parse_flist(y), rtol=rtol) for x, y in zip(a[1:], m[1:]))
+        except Exception:
+            return False
+    return cmp
+
+
 def cases(rng, tier, seed):
     big = tier == 'thorough'
     nr = common.np_rng(PID, seed, 'data')
@@ -223,6 +255,9 @@ def cases(rng, tier, seed):
             elif method == 'fir':
                 out.append(Case('C18 firplan %s %s %s %d %d' % (f2x(fsr), f2x(cfg['lb']), tok_ub(cfg['ub']), cfg['order'], cfg['n']),
                                 observe_fir(cfg), 'fir/plan/' + cfg['kind'], cmp=cmp_plan, meta=meta))
+            elif method == 'iir':
+                out.append(Case('C18 iirplan %s %s %s' % (f2x(fsr), f2x(cfg['lb']), tok_ub(cfg['ub'])),
+                                observe_iir(cfg), 'iir/plan/' + cfg['kind'], cmp=cmp_lists(1e-12), meta=meta))
             # ---- the public filtfilt wrapper with a random (b, a): DC restoration
             if method in ('fir', 'iir'):
                 b = nr.uniform(-1, 1, rng.randint(2, max(2, min(6, (cfg['n'] - 1) // 3))))   # filtfilt needs n > 3*len(b)
@@ -408,6 +443,127 @@ def judge_boxq(m, case=None):
     return None
 
 
+def robust(name, sd):
+    """second-wave classes on the real code: repeated calls / twin analyzers (memoised designs), input
+    overwritten in place between calls (identity-keyed memo), Fortran / transposed-view / strided data,
+    outputs not aliasing inputs, read orders on one analyzer, filtfilt(in_ts=...) re-targeting."""
+    import random
+    ts, FA = nt()
+    rng = random.Random(sd)
+    nr = np.random.RandomState(sd)
+    rep = {'kind': 'robust', 'name': name, 'sd': sd}
+    n = rng.choice([64, 65, 90, 121])
+    nch = rng.choice([1, 2, 3])
+    fs = rng.choice([1.0, 10.0, 250.0])
+    kind = rng.choice(['lowpass', 'highpass', 'bandpass'])
+    lb = 0 if kind == 'lowpass' else 0.2 * fs / 2
+    ub = None if kind == 'highpass' else 0.6 * fs / 2
+    kw = dict(lb=lb, ub=ub, filt_order=8)
+    unit = rng.choice(UNITS)
+    data = nr.randn(nch, n) * 3 + nr.uniform(-5, 5, (nch, 1))
+
+    def series(d):
+        return ts.TimeSeries(d, sampling_rate=fs, t0=2.5, time_unit=unit)
+
+    def out(T, m, **k2):
+        return np.array(getattr(FA(T, **dict(kw, **k2)), m).data, dtype='d')
+
+    def bad(what):
+        return Failure('robust/' + name, 'robustness %s (n=%d nch=%d Fs=%g %s unit=%s): %s' % (name, n, nch, fs, kind, unit, what), rep)
+
+    def same(a, b, tol=0.0):
+        a, b = np.asarray(a), np.asarray(b)
+        return a.shape == b.shape and np.abs(a - b).max() <= tol * max(1.0, np.abs(b).max())
+    if name == 'repeat-and-twins':
+        T = series(data.copy())
+        for m in METHODS:
+            r1 = out(T, m)
+            r1c = r1.copy()
+            r2 = out(T, m)                          # second analyzer, identical settings, same series object
+            fa = FA(T, **kw)
+            o = getattr(fa, m)
+            o.data[...] = 1e9                       # scribble on a returned series
+            r3 = out(T, m)
+            if not (same(r2, r1c) and same(r3, r1c)):
+                return bad('%s: an identical second analyzer gives a different result (after the first result was read / modified)' % m)
+            if not same(T.data, data):
+                return bad('%s: the input series data changed' % m)
+            T2 = series(data.copy() * 2.0 + 1.0)    # different data, same settings: no stale design / result
+            r4 = out(T2, m)
+            r4f = out(series(data.copy() * 2.0 + 1.0), m)
+            if not same(r4, r4f):
+                return bad('%s: result depends on what was filtered before' % m)
+        return None
+    if name == 'overwrite-in-place':
+        arr = data.copy()
+        T = series(arr)
+        for m in METHODS:
+            arr[...] = data
+            first = out(T, m)
+            new = nr.randn(*data.shape) + 4.0
+            T.data[...] = new                       # same array object, new contents
+            got = out(T, m)
+            want = out(series(new.copy()), m)
+            if not same(got, want, 1e-12):
+                return bad('%s: after overwriting the input data in place the OLD result is returned' % m)
+        return None
+    if name == 'layout':
+        if nch == 1:
+            data = np.vstack([data, data[::-1] * 0.5 + 1])
+        ref = {m: out(series(data.copy()), m) for m in METHODS}
+        for lab, arr in (('fortran', np.asfortranarray(data)), ('transposed-view', np.ascontiguousarray(data.T).T),
+                         ('strided', np.repeat(data, 2, axis=1)[:, ::2])):
+            for m in METHODS:
+                keep = arr.copy()
+                got = out(series(arr), m)
+                if not same(got, ref[m], 1e-11):
+                    return bad('%s on a %s input differs from the C-contiguous result by %.3g' % (m, lab, np.abs(got - ref[m]).max()))
+                if not same(arr, keep):
+                    return bad('%s modified its %s input' % (m, lab))
+        return None
+    if name == 'no-alias':
+        for m in METHODS:
+            T = series(data.copy())
+            fa = FA(T, **kw)
+            o = getattr(fa, m)
+            if np.shares_memory(np.asarray(o.data), np.asarray(T.data)):
+                return bad('%s: output data shares memory with the input data' % m)
+            t_before = np.array(T.time)
+            o.data[...] = -1.0
+            try:
+                np.asarray(o.time)[...] = 0
+            except (ValueError, TypeError):
+                pass
+            if not same(T.data, data) or not np.array_equal(np.array(T.time), t_before):
+                return bad('%s: modifying the returned series changed the input series' % m)
+            if m in ('fir', 'iir') and not same(out(T, m), out(series(data.copy()), m)):
+                return bad('%s: later reads are affected by modifying an earlier result' % m)
+        return None
+    if name == 'read-order':
+        fresh = {m: out(series(data.copy()), m) for m in METHODS}
+        order = METHODS[:]
+        rng.shuffle(order)
+        fa = FA(series(data.copy()), **kw)
+        for m in order:
+            got = np.array(getattr(fa, m).data)
+            if not same(got, fresh[m], 1e-12):
+                return bad('reading %s after %s on one analyzer differs from a fresh analyzer' % (m, order[:order.index(m)]))
+        return None
+    if name == 'filtfilt-in_ts':
+        b = nr.uniform(-1, 1, 4)
+        a = np.array([1.0, 0.3])
+        T1, T2 = series(data.copy()), ts.TimeSeries(nr.randn(nch, n + 7), sampling_rate=2 * fs, t0=9.0, time_unit='ms')
+        o = FA(T1, **kw).filtfilt(b, a, in_ts=T2)
+        w = FA(T2).filtfilt(b, a)
+        if not same(o.data, w.data) or o.time_unit != T2.time_unit or o.sampling_interval != T2.sampling_interval or not np.all(np.asarray(o.t0) == np.asarray(T2.t0)):
+            return bad('filtfilt(in_ts=other) is not the filter of `other` on its own axis')
+        return None
+    return None
+
+
+ROBUST = ['repeat-and-twins', 'overwrite-in-place', 'layout', 'no-alias', 'read-order', 'filtfilt-in_ts']
+
+
 def oracle(rng, tier, seed, focus, cases_=None):
     fails, seen, nj = [], set(), 0
     focus_ids = {id(c) for c in focus}
@@ -436,10 +592,20 @@ def oracle(rng, tier, seed, focus, cases_=None):
                     fails.append(Failure('probe/%s/%s/raises' % (method, kind), 'probe raised: ' + r, {'kind': 'probe', 'method': method, 'band': kind, 'ph': 0.3}))
                 elif r:
                     fails.append(r)
+    n_rb = 0
+    for name in ROBUST:
+        for _ in range(8 if tier == 'thorough' else 2):
+            n_rb += 1
+            sd = rng.randint(0, 10**6)
+            r = common.call(lambda: robust(name, sd))
+            if isinstance(r, str):
+                fails.append(Failure('robust/%s/raises' % name, 'robustness %s raised: %s' % (name, r), {'kind': 'robust', 'name': name, 'sd': sd}))
+            elif r:
+                fails.append(r)
     keys = {}
     for f in fails:
         keys[f.key] = keys.get(f.key, 0) + 1
-    return fails, {'configurations_judged': nj, 'probes_numeric_only': nprobe, 'failed': len(fails), 'failure_keys': keys}
+    return fails, {'configurations_judged': nj, 'probes_numeric_only': nprobe, 'robustness_experiments': n_rb, 'failed': len(fails), 'failure_keys': keys}
 
 
 def replay(d):
@@ -452,6 +618,11 @@ def replay(d):
         return None
     if d.get('kind') == 'boxq':
         return judge_boxq(d)
+    if d.get('kind') == 'robust':
+        r = common.call(lambda: robust(d['name'], d['sd']))
+        if isinstance(r, str):
+            return Failure('robust/%s/raises' % d['name'], r, d)
+        return r
     if d.get('kind') == 'probe':
         import random
         class R:
